@@ -29,6 +29,9 @@ class Zygote(object):
         env['PYTHONHASHSEED'] = str(hashseed)
         env['PYTHONDONTWRITEBYTECODE'] = '1'
         env['PYTHONPATH'] = VERIF
+        if os.environ.get('PNC_REPO_SRC'):
+            # sensitivity runs against a scratch copy of the sources (mutants)
+            env['PYTHONPATH'] = os.environ['PNC_REPO_SRC'] + os.pathsep + VERIF
         env['OMP_NUM_THREADS'] = '1'
         env['OPENBLAS_NUM_THREADS'] = '1'
         env['MKL_NUM_THREADS'] = '1'
